@@ -3,6 +3,7 @@ stdin: {"job": ..., "cases": [...]}   stdout: JSON list, one result per case."""
 import asyncio, datetime as D, json, os, struct, sys, time, warnings, zoneinfo
 sys.path.insert(0, os.path.dirname(os.path.abspath(__file__)))
 import time_machine
+for _c in (DeprecationWarning, PendingDeprecationWarning, FutureWarning): warnings.filterwarnings("error", category=_c, module=r"aioswitcher(\..*)?$")     # as in world.py
 from aioswitcher.schedule import Days, tools
 from aioswitcher.schedule.parser import get_schedules
 
